@@ -50,8 +50,8 @@ CFG = {
                 "over raw response bytes) and a live batch of thousands of requests.",
         "design_ref": "DESIGN.md §6 C13",
         "note": "Coq kernel + vm_compute; hand-written model tied by this run; JSON serialisation, uuid freshness and "
-                "the wording of reason phrases are library contracts. Open known finding K13 "
-                "(for_client_error_with_status panics for client statuses without a canonical reason).",
+                "the wording of reason phrases are library contracts. K13 (for_client_error_with_status "
+                "panicked for client statuses without a standard label) is fixed in /repo 4dc9fa0; its witness runs first.",
         "technique": "Coq proof (non-interference, invariants over the wrapper) + exhaustive u16 correspondence + live sampling",
     },
 }
